@@ -106,6 +106,7 @@ CHECKS = {
             {"pkg": "core", "run": "^TestC20EarlySends$", "quick": 500, "thorough": 20000, "shards_thorough": 4},
             {"pkg": "pure", "run": "^TestC20(Message|Args|Socket)$", "quick": 3000, "thorough": 150000, "shards_thorough": 8},
             {"pkg": "pure", "run": "^TestC20ByteBuffers$", "quick": 6, "thorough": 200, "shards_thorough": 8},
+            {"pkg": "thriftw", "run": "^TestC20FailedSends$", "quick": 300, "thorough": 10000, "shards_thorough": 4},
             {"pkg": "core", "run": "^TestC20Context$", "quick": 800, "thorough": 40000, "shards_thorough": 8},
         ],
     },
